@@ -318,7 +318,7 @@ class TrimWhitespaces(FullAstVisitor):
             node.whitespaces.value += '\n'
 
     def dedent(self, value: str) -> str:
-        if value.endswith(self.config.indent_by):
+        if self.config.indent_by and value.endswith(self.config.indent_by):
             value = value[:-len(self.config.indent_by)]
         return value
 
